@@ -139,13 +139,103 @@ def semantic_oracle(ctx, sc):
                     break
 
 
+def slack_in(alt, bd):
+    """smallest slack of the point in the alternative (negative = outside)"""
+    return min((t[1] - sum(a * bd[x] for x, a in t[0].items()) for t in alt), default=F(1000))
+
+
+def contract_level(ctx, rng, sc):
+    """What the CONTRACT constructor and the contract-level merge keep: the constructor must itself reject assumption alternatives
+    that share a behaviour (whatever the nested list it is handed went through), and must keep every alternative it is given --
+    in particular an alternative that CONTAINS an earlier one (smaller first) and the nested pairwise intersections of a merge."""
+    from pacti.contracts.polyhedral_iocontract import PolyhedralIoContractCompound
+    from pacti.iocontract import Var
+    ins, outs = sc["i"], sc["o"]
+    if set(ins) & set(outs) or not ins:
+        return
+    vs = list(dict.fromkeys(ins + outs))
+    jal = lambda alts: [[cf.jsonable_term(t) for t in a] for a in alts]     # noqa: E731
+
+    def build(a_alts, g_alts, validated):
+        return PolyhedralIoContractCompound(assumptions=cc.mknested(a_alts, validated), guarantees=cc.mknested(g_alts, False),
+                                            input_vars=[Var(v) for v in ins], output_vars=[Var(v) for v in outs])
+
+    # (1) the constructor on a nested list that was NOT validated when it was built
+    for a_alts in (sc["a1"], sc["a2"]):
+        if any(not t[0] for a in a_alts for t in a) or any(x not in ins for a in a_alts for t in a for x in t[0]):
+            continue
+        shares = any(feasible(a_alts[i] + a_alts[j]) for i in range(len(a_alts)) for j in range(i + 1, len(a_alts)))
+        kind, v, _ = pp.observe(lambda: build(a_alts, sc["g1"], False))
+        info = {"assumption_alternatives": jal(a_alts), "guarantee_alternatives": jal(sc["g1"]), "inputs": ins, "outputs": outs,
+                "how": "PolyhedralIoContractCompound(assumptions=NestedPolyhedra(..., force_empty_intersection=False), ...)"}
+        if kind == "ok" and shares:
+            ctx.violation("compound:overlap_accepted_by_constructor", "the contract constructor accepted assumption alternatives that share a behaviour", info)
+        if kind == "err" and v[0] == 2 and v[1] == "ValueError" and not shares:
+            ctx.violation("compound:disjoint_rejected_by_constructor", "the contract constructor rejected pairwise disjoint assumption alternatives", dict(info, error=list(v)))
+    # (2) guarantees with a later alternative containing an earlier one (and the other way round); a point of the larger one outside the smaller
+    if any(not t[0] for a in sc["g1"] for t in a) or not sc["g1"] or not sc["g1"][0]:
+        return
+    small = list(sc["g1"][0])
+    m = F(rng.choice([1, 2, 3]), rng.choice([1, 2]))
+    big = [(co, c + m * sum(abs(a) for a in co.values())) for co, c in small if rng.random() < 0.9] or [(small[0][0], small[0][1] + m)]
+    g_alts = [small, big] if rng.random() < 0.7 else [big, small]
+    a_alts = sc["a1"] if not any(feasible(sc["a1"][i] + sc["a1"][j]) for i in range(len(sc["a1"])) for j in range(i + 1, len(sc["a1"]))) else sc["a1"][:1]
+    if any(not t[0] for a in a_alts for t in a):
+        return
+    pts = []
+    for co, c in small:
+        r = lp.feasible(big + lp.box_terms(vs, F(50)) + [({x: -a for x, a in co.items()}, -(c + m * sum(abs(a) for a in co.values()) / 2))])
+        if r["status"] != "infeasible":
+            pts.append({x: r["point"].get(x, F(0)) for x in vs})
+    inner = lp.feasible(small + lp.box_terms(vs, F(50)))
+    if inner["status"] != "infeasible":
+        pts.append({x: inner["point"].get(x, F(0)) for x in vs})
+    kind, k1, _ = pp.observe(lambda: build(a_alts, g_alts, True))
+    if kind != "ok":
+        return
+    info = {"assumption_alternatives": jal(a_alts), "guarantee_alternatives": jal(g_alts), "inputs": ins, "outputs": outs}
+    if len(cc.nested_of(k1.g)) != len(g_alts) and feasible(small):
+        ctx.violation("compound:constructor_lost_alternative", "the contract constructor did not keep every guarantee alternative it was given",
+                      dict(info, kept=jal(cc.nested_of(k1.g))))
+    for bd in pts:
+        truth = any(slack_in(a, bd) >= 0 for a in g_alts)
+        kind, v, _ = pp.observe(lambda: k1.g.contains_behavior(cc.mkbehavior(list(bd.items()))))
+        if kind == "ok" and v != truth:
+            ctx.violation("compound:contract_contains_wrong", "the guarantees of a constructed compound contract disagree with the union of the alternatives given",
+                          dict(info, behavior={x: str(q) for x, q in bd.items()}, answer=v))
+    # (3) merge: the union of the result's guarantee alternatives is the intersection of the operands' unions, also when the pairwise
+    #     intersections are nested although no operand's alternatives are (cut both by a third list)
+    cutv = rng.choice(vs)
+    c0 = rng.choice(pts)[cutv] if pts else F(0)
+    w = F(rng.choice([0, 1, 2]), rng.choice([1, 2]))
+    g_cut = [[({cutv: F(1)}, c0 + w), ({cutv: F(-1)}, -(c0 - w))]]
+    kind, k2, _ = pp.observe(lambda: build(a_alts, g_cut, True))
+    if kind != "ok":
+        return
+    for left, right, tag in ((k1, k2, "c1.merge(c2)"), (k2, k1, "c2.merge(c1)")):
+        kind, mg, _ = pp.observe(lambda: left.merge(right))
+        if kind != "ok":
+            continue
+        for bd in pts:
+            s = min(max((slack_in(a, bd) for a in g_alts)), max((slack_in(a, bd) for a in g_cut)))
+            if abs(s) < F(1, 1024):
+                continue
+            kind, v, _ = pp.observe(lambda: mg.g.contains_behavior(cc.mkbehavior(list(bd.items()))))
+            if kind == "ok" and v != (s > 0):
+                ctx.violation("compound:merge_union_wrong", "the guarantees of a merge are not the intersection of the operands' unions at a point",
+                              dict(info, other_guarantee_alternatives=jal(g_cut), order=tag, behavior={x: str(q) for x, q in bd.items()},
+                                   answer=v, merged_guarantees=jal(cc.nested_of(mg.g))))
+
+
 def check(ctx):
     ctx.cov["rule"] = (
         "scenarios of two related compound contracts over <=3 variables, 1-3 alternatives per side (disjoint, touching, "
         "overlapping, empty, duplicated terms), every operation of NestedPolyhedra / PolyhedralIoContractCompound run on the "
         "real classes with linprog recorded and replayed into model/Compound.v (results compared exactly inside Coq, with a "
         "canary); C17 re-decided exactly on the real objects (membership by exact evaluation, intersection alternative by "
-        "alternative, <= by exact search for a point outside the right union, disjointness by exact feasibility). "
+        "alternative, <= by exact search for a point outside the right union, disjointness by exact feasibility); at contract level: the constructor on nested lists that were not validated, guarantee "
+        "alternatives one of which contains another (either order) with a point of the larger outside the smaller, and merges whose "
+        "pairwise intersections are nested. "
         "non-trivial = the operation returned a value or ValueError; distinct counted per (scenario, operation)")
     proved = ctx.prove("props/C17.v", ["proofs/CompoundFacts.v", "proofs/CompoundGenNested.v", "proofs/CompoundGenContract.v"])
     ctx.build(["model/Compound.vo", "model/Corr.vo"])
@@ -164,6 +254,7 @@ def check(ctx):
     for k in range(nsem):
         sc = cc.rand_scenario(rng)
         semantic_oracle(ctx, sc)
+        contract_level(ctx, rng, sc)
         if k < 1:
             ctx.sample({kk: (str(v)[:400]) for kk, v in sc.items()})
     ctx.count(nsem, nsem)
